@@ -1813,7 +1813,7 @@ export class AnyOfDiscriminatedRuntype extends BaseRuntype {
       return;
     }
     printingContext.markDefinitionInProgress(name);
-    const body = target.schema(ctx);
+    const body = (printingContext.getNamedTypeSchemaOverride(name) ?? target).schema(ctx);
     printingContext.storeDefinition(name, body);
   }
 
